@@ -289,7 +289,7 @@ def monOp (op : String) (args : List String) : Option String :=
     let (e, ts) ← pOptNat args
     let (now, ts) ← pNat ts
     let (d, _) ← pNat ts
-    some (if e == some (now + d) then "ok" else "viol C08-expiry")
+    some (verdict (monCloseExpiry e now d))
   | "mon_close_conserves" => do
     let (sb, ts) ← pNat args
     let (sa, ts) ← pNat ts
@@ -315,7 +315,7 @@ def monOp (op : String) (args : List String) : Option String :=
     let (amt, ts) ← pNat args
     let (out, ts) ← pInt ts
     let (n, _) ← pNat ts
-    some (if out ≤ (amt : Int) && (amt : Int) - out < ((max n 1 : Nat) : Int) then "ok" else "viol C09-penalty-not-distributed")
+    some (verdict (monPenaltyTotal amt out n))
   | "mon_pos_has_weight" => do
     let (h, _) ← pBit args
     some (if h then "ok" else "viol C10-position-without-weight")
@@ -430,7 +430,7 @@ def monOp (op : String) (args : List String) : Option String :=
     -- C12: an EXECUTED route that SimulateSwapOperations refused to price an instant before; <pools pairwise distinct and no
     -- denom produced by two hops> (otherwise the query may legitimately overflow: C12Sys.route_tx_equals_simulation_partial)
     let (clean, _) ← pBit args
-    some (if clean then "viol C12-route-quote" else "ok")
+    some (verdict (monRouteUnquoted clean))
   | "mon_rev" => do
     -- C12 reverse quote: `ret` is what the implementation pays for quote + 1
     let (xs, _) ← pRepeat pNat 6 args
@@ -448,7 +448,7 @@ def monOp (op : String) (args : List String) : Option String :=
     -- C14: <assets of the pool> <pool was empty> of an ACCEPTED single-asset deposit
     let (n, ts) ← pNat args
     let (empty, _) ← pBit ts
-    some (if n != 2 then "viol C14-larger-pool" else if empty then "viol C14-empty-pool" else "ok")
+    some (verdict (monSingleShape n empty))
   | "mon_cp_slippage" => do
     let (tol, ts) ← pOptNat args
     let (xs, _) ← pRepeat pNat 5 ts
